@@ -10,7 +10,7 @@ package main
 //	          hierarchy), and module functions / closures passed as arguments to non-module functions (callbacks
 //	          run by the callee), without following `go` statements and AfterFunc arguments (those start other roots)
 //	access    FieldAddr/Field on a struct type of the module: load = rd, store / map update / delete = wr;
-//	          send / recv / close / range on a channel held in such a field
+//	          send / recv / close / range on a channel held in such a field; selsend / selrecv for the cases of a select
 //
 // The analysis is an over-approximation of who can touch what (reflection, unsafe and cgo are not followed).
 
@@ -404,9 +404,9 @@ func writeConc(pkgs []*packages.Package, byPath map[string]*packages.Package, pa
 						for _, st := range x.States {
 							if loc, ok := chanLoc(st.Chan); ok {
 								if st.Dir == types.SendOnly {
-									add(rn, f, loc, "send")
+									add(rn, f, loc, "selsend")
 								} else {
-									add(rn, f, loc, "recv")
+									add(rn, f, loc, "selrecv")
 								}
 							}
 						}
